@@ -73,3 +73,45 @@ Example scc_ok_components_example :
   closed g = true /\ scc_ok g [[2]; [1; 0]] = true /\ scc_ok g [[2]; [0; 1]] = true
   /\ scc_ok g [[0; 1]; [2]] = false.
 Proof. vm_compute. repeat split. Qed.
+
+(** * The order clause lifted from edges to paths: everything a vertex depends on, transitively,
+    lies in its own component or in an EARLIER one. *)
+Theorem spec_deps_before g cs l1 c l2 u v :
+  closed g = true -> spec g cs -> cs = l1 ++ c :: l2 -> In u c -> path g u v ->
+  In v c \/ In v (concat l1).
+Proof.
+  intros Hcl S E Hu Hp. pose proof S as [_ [Hperm [_ [_ Hord]]]].
+  assert (Hclosed : forall x w, (In x c \/ In x (concat l1)) -> In w (succs g x) ->
+                                (In w c \/ In w (concat l1))).
+  { intros x w Hx Hw.
+    assert (Hnl : ~ In w (concat l2)).
+    { intro Hin. apply in_concat in Hin. destruct Hin as [d [Hd Hwd]].
+      destruct Hx as [Hx|Hx].
+      - exact (Hord l1 c l2 d x w E Hd Hx Hwd Hw).
+      - apply in_concat in Hx. destruct Hx as [cx [Hcx Hxcx]].
+        apply in_split in Hcx. destruct Hcx as [a [b Eab]].
+        apply (Hord a cx (b ++ c :: l2) d x w).
+        + rewrite E, Eab, <- app_assoc. reflexivity.
+        + apply in_or_app. right. right. exact Hd.
+        + exact Hxcx.
+        + exact Hwd.
+        + exact Hw. }
+    assert (Hwv : In w (verts g)) by exact (closed_succs g Hcl x w Hw).
+    apply Permutation_sym in Hperm. pose proof (Permutation_in w Hperm Hwv) as Hin.
+    rewrite E, concat_app in Hin. cbn [concat] in Hin.
+    apply in_app_or in Hin. destruct Hin as [Hin|Hin]; [right; exact Hin|].
+    apply in_app_or in Hin. destruct Hin as [Hin|Hin]; [left; exact Hin | contradiction]. }
+  exact (path_closed_set g (fun x => In x c \/ In x (concat l1)) Hclosed u v Hp (or_introl Hu)).
+Qed.
+
+(** Tarjan as coded: every vertex reachable from a vertex of a component lies in that component
+    or in an earlier one of the output. *)
+Theorem tarjan_deps_before g :
+  closed g = true ->
+  exists cs, scc g = Some cs /\
+    forall l1 c l2 u v, cs = l1 ++ c :: l2 -> In u c -> path g u v -> In v c \/ In v (concat l1).
+Proof.
+  intros Hcl. destruct (tarjan_correct g Hcl) as [cs [Hs Hok]]. exists cs. split; [exact Hs|].
+  apply (scc_ok_spec g cs Hcl) in Hok. intros l1 c l2 u v E Hu Hp.
+  exact (spec_deps_before g cs l1 c l2 u v Hcl Hok E Hu Hp).
+Qed.
